@@ -57,7 +57,9 @@ def info(prop):
                         "(three section headers that may repeat, content, content+comment, content+empty comment, content+two comments, "
                         "comment-only, blank, preprocessor) for three families of section names (generic, typed atoms/bonds/moleculetype, mixed), "
                         "each without prefix, with header text before the first section, without final newline, and (typed) after a "
-                        "moleculetype+atoms prefix so that read_topology applies; a separate family has comment texts that begin with '#'. "
+                        "moleculetype+atoms prefix so that read_topology applies; a separate family has comment texts that begin with '#'. Another has comment lines and trailing comments that contain, in the middle of the comment text, each of the characters that "
+                        "str.splitlines treats as a line boundary but a topology file does not (VT, FF, U+001C-1E, U+0085, U+2028, U+2029; <= 3 / 4 lines, "
+                        "generic and typed sections). "
                         "All 16 shipped topologies. Expected values come from the reference reading of the generated text."),
         "rule": ("one evaluation = one clause on one enumerated line or file; scopes are enumerated completely in order of size; "
                  "distinct = distinct texts, non-trivial = the reference reading has at least one non-blank line (line level: is not blank)"),
@@ -73,6 +75,14 @@ _HDR = re.compile(r"^\[([^\]]*)\]")
 
 def is_header(raw):
     return _HDR.match(raw.strip()) is not None
+
+
+def split_lines(text, keepends=True):
+    """Lines of a topology file are separated by "\\n" only (text mode turns \\r\\n and \\r into \\n before).
+    Not str.splitlines, which also breaks at form feed, vertical tab, \\x1c-\\x1e, \\x85, U+2028, U+2029."""
+    parts = text.split("\n")
+    lines = [p + "\n" for p in parts[:-1]] + ([parts[-1]] if parts[-1] else [])
+    return lines if keepends else [l[:-1] if l.endswith("\n") else l for l in lines]
 
 
 def norm(text):
@@ -100,7 +110,7 @@ def ref_line(raw):
 def ref_file(text):
     header, order, sections = [], [], {}
     cur = None
-    for raw in text.splitlines(True):
+    for raw in split_lines(text):
         if is_header(raw):
             cur = _HDR.match(raw.strip()).group(1).strip()
             if cur not in sections:
@@ -124,13 +134,13 @@ def hash_comment(rec):
 def text_signature(text):
     """stable classification of an input (for known findings)"""
     feats = []
-    names = [_HDR.match(l.strip()).group(1).strip() for l in text.splitlines() if is_header(l)]
+    names = [_HDR.match(l.strip()).group(1).strip() for l in split_lines(text, False) if is_header(l)]
     if len(names) != len(set(names)):
         feats.append("repeated-section")
-    recs = [ref_line(l) for l in text.splitlines(True) if not is_header(l)]
+    recs = [ref_line(l) for l in split_lines(text) if not is_header(l)]
     if any(hash_comment(r) for r in recs):
         feats.append("comment-text-starts-with-#")
-    for l in text.splitlines():
+    for l in split_lines(text, False):
         if not is_header(l) and not l.startswith("#") and ";" in l:
             head, _, tail = l.partition(";")
             if head.split() and not tail.strip():
@@ -680,6 +690,70 @@ def task_files_hash(maxlen, seed):
     return agg.obligations(f"comment-text-starts-with-#/lines<={maxlen}", time.time() - t0)
 
 
+CTL_CHARS = [("U+000B", "\x0b"), ("U+000C", "\x0c"), ("U+001C", "\x1c"), ("U+001D", "\x1d"), ("U+001E", "\x1e"),
+             ("U+0085", "\x85"), ("U+2028", "\u2028"), ("U+2029", "\u2029")]
+CTL_KINDS = ["H1", "H2", "content", "content+comment", "comment-only", "content+two-comments"]
+CTL_NAMES = [("dihedrals", "angles"), ("atoms", "bonds"), ("moleculetype", "pairs")]
+
+
+def render_ctl(names, seq, c):
+    """comment-only lines and trailing comments with the character c in the middle of the comment text, followed by
+    more text (form feed: page breaks of old force-field files).  The file stays one line per "\\n"."""
+    lines, cur = [], None
+    ch = c
+    for i, k in enumerate(seq):
+        kind = CTL_KINDS[k]
+        c = ch if cur is not None or CTL_KINDS[k] in ("H1", "H2") else " "    # text before the first section is copied verbatim: plain there
+        if kind in ("H1", "H2"):
+            cur = names[int(kind[1]) - 1]
+            lines.append(f"[ {cur} ]")
+        elif kind == "content":
+            lines.append(content_text(cur, i))
+        elif kind == "content+comment":
+            lines.append(content_text(cur, i) + f" ; note{i}{c}tail{i} 7 8")
+        elif kind == "comment-only":
+            lines.append(f"; page{i}{c}break{i} 5 6")
+        elif kind == "content+two-comments":
+            lines.append(content_text(cur, i) + f" ; note{i} ; more{i}{c}tail{i}")
+    return "".join(l + "\n" for l in lines)
+
+
+def _encodable(c):
+    # ItpFile.write opens the output with the default encoding: a character it cannot encode is outside the scope
+    import locale
+    try:
+        c.encode(locale.getpreferredencoding(False))
+        return True
+    except Exception:
+        return False
+
+
+def task_files_ctl(maxlen, seed):
+    tmp = _mkdtemp()
+    out = []
+    try:
+        for label, c in CTL_CHARS:
+            if not _encodable(c):
+                out.append(ob(f"{PROP}/{F_FILE}/guard.default-encoding-can-write/{label}", "undecided", kind="guard", engine="smallscope",
+                              backend="runtime-contract", expect="undecided", reason="the default encoding cannot encode the character; family skipped"))
+                continue
+            t0 = time.time()
+            agg = Agg(F_CLAUSES)
+            for names in CTL_NAMES:
+                for first in range(len(CTL_KINDS)):
+                    for seq in enum_seqs(len(CTL_KINDS), maxlen, first):
+                        text = render_ctl(names, seq, c)
+                        if c not in text:
+                            continue    # the character occurs inside a section
+                        bad, done = check_file(text, tmp)
+                        agg.add(text, bad, done, {"level": "file", "text": text, "family": "line-boundary-character-in-comment",
+                                                  "signature": f"comment-contains-{label}"})
+            out += agg.obligations(f"line-boundary-character-in-comment/{label}/lines<={maxlen}", time.time() - t0)
+    finally:
+        shutil.rmtree(tmp, ignore_errors=True)
+    return out
+
+
 def data_dir():
     import gaddlemaps
     return os.path.join(os.path.dirname(os.path.abspath(gaddlemaps.__file__)), "data")
@@ -724,7 +798,7 @@ GUARD_FILES = [
 
 
 def _drop_first_content(t):
-    lines = t.splitlines(True)
+    lines = split_lines(t)
     for i, l in enumerate(lines):
         if not is_header(l) and ref_line(l)[0] == "content" and any(is_header(x) for x in lines[:i]):
             return "".join(lines[:i] + lines[i + 1:])
@@ -732,7 +806,7 @@ def _drop_first_content(t):
 
 
 def _drop_last_content(t):
-    lines = t.splitlines(True)
+    lines = split_lines(t)
     for i in range(len(lines) - 1, -1, -1):
         if not is_header(lines[i]) and ref_line(lines[i])[0] == "content":
             return "".join(lines[:i] + lines[i + 1:])
@@ -740,17 +814,17 @@ def _drop_last_content(t):
 
 
 def _drop_comment_lines(t):
-    return "".join(l for l in t.splitlines(True) if ref_line(l)[0] != "comment" or is_header(l))
+    return "".join(l for l in split_lines(t) if ref_line(l)[0] != "comment" or is_header(l))
 
 
 def _drop_header(t):
-    lines = t.splitlines(True)
+    lines = split_lines(t)
     k = next((i for i, l in enumerate(lines) if is_header(l)), len(lines))
     return "".join(lines[k:])
 
 
 def _sort_sections(t):
-    lines = t.splitlines(True)
+    lines = split_lines(t)
     k = next((i for i, l in enumerate(lines) if is_header(l)), len(lines))
     blocks, cur = [], None
     for l in lines[k:]:
@@ -816,12 +890,12 @@ def task_guards(seed):
         for seq in enum_seqs(len(KINDS), 4, first):
             text = render_file(names, "none", seq)
             r = ref_file(text)
-            hs = [l for l in text.splitlines() if is_header(l)]
+            hs = [l for l in split_lines(text, False) if is_header(l)]
             if len(hs) != len(set(hs)):
                 blocks = re.split(r"(?m)^\[.*\]\n", text)[1:]
-                if sum(1 for h, b in zip(hs, blocks) if h == hs[0] and any(ref_line(x)[0] == "content" for x in b.splitlines(True))) >= 2:
+                if sum(1 for h, b in zip(hs, blocks) if h == hs[0] and any(ref_line(x)[0] == "content" for x in split_lines(b))) >= 2:
                     cover["repeated-section-with-content-in-both-blocks"] += 1
-            ls = text.splitlines()
+            ls = split_lines(text, False)
             if any(l.endswith(" ;") and i + 1 < len(ls) and ref_line(ls[i + 1])[0] != "blank" and not is_header(ls[i + 1])
                    and not is_header(l) and any(is_header(x) for x in ls[:i]) for i, l in enumerate(ls)):
                 cover["empty-trailing-comment-followed-by-a-line"] += 1
@@ -854,6 +928,7 @@ def tasks(prop, tier, seed):
     t.append(("shipped", task_shipped, (seed,), 300.0))
     t.append(("guards", task_guards, (seed,), 300.0))
     t.append(("file/hash-comment", task_files_hash, (3 if quick else 4, seed), 300.0))
+    t.append(("file/line-boundary-characters", task_files_ctl, (3 if quick else 4, seed), 600.0))
     n_file = 4 if quick else 5
     slices = [(k, k + 1) for k in range(0, len(KINDS), 2)] if quick else [(k,) for k in range(len(KINDS))]
     for fam in FAMILIES:
